@@ -57,6 +57,12 @@ PhiInjective ==
 EveryRowOwned ==
   \A r \in 1..Len(G.maprows) : \E i \in 1..Tr.assets[G.maprows[r].asset].n : Tr.assets[G.maprows[r].asset].phi[i] = G.maprows[r].lab
 
+\* a dispatch row names a node its asset was declared with (the declaration is independent of the set-up code)
+NodeDeclaredOK ==
+  \A r \in 1..Len(G.maprows) :
+     (G.maprows[r].type = "d" /\ G.maprows[r].asset \in 1..NAs /\ "nodes" \in DOMAIN Tr.assets[G.maprows[r].asset])
+        => G.maprows[r].node \in ToSet(Tr.assets[G.maprows[r].asset].nodes)
+
 \* the asset's restrictions are embedded on its own variables
 RowsEmbeddedOK ==
   LET emb == UNION { { [cls |-> a.rows[j].cls, b |-> a.rows[j].b,
@@ -95,7 +101,7 @@ FixOK ==
     ELSE F.l1[g + 1] = F.l0[g + 1] /\ F.u1[g + 1] = F.u0[g + 1]
 
 Clauses == << <<"size", SizeOK>>, <<"label_range", LabelRangeOK>>, <<"step_on_grid", StepOK>>, <<"bounds_nan", BoundsOK>>,
-              <<"owner", OwnerOK>>, <<"label_injective", PhiInjective>>, <<"row_owned", EveryRowOwned>>,
+              <<"owner", OwnerOK>>, <<"label_injective", PhiInjective>>, <<"row_owned", EveryRowOwned>>, <<"node_declared", NodeDeclaredOK>>,
               <<"rows_embedded", RowsEmbeddedOK>>, <<"unmapped_inert", UnmappedInertOK>>, <<"nodal_rows", NodalOK>>,
               <<"fix_window", FixOK>> >>
 FirstFailed == LET bad == SelectSeq(Clauses, LAMBDA c : ~c[2]) IN IF bad = <<>> THEN "" ELSE bad[1][1]
